@@ -1,11 +1,19 @@
 import crules
 F = "hll/include/CouponHashSet-internal.hpp"
 
+HU = "hll/include/HllUtil.hpp"
+# HllUtil field accessors (real code, inlined): a change that routes a comparison through them stays inside the extraction
+pair = {"name": "pair", "file": HU, "match": r"inline uint32_t HllUtil<A>::pair\(uint32_t slotNo, uint8_t value\)", "sig": "static inline uint32_t pair(uint32_t slotNo, uint8_t value)"}
+getLow26 = {"name": "getLow26", "file": HU, "match": r"inline uint32_t HllUtil<A>::getLow26\(uint32_t coupon\)", "sig": "static inline uint32_t getLow26(uint32_t coupon)"}
+getValue = {"name": "getValue", "file": HU, "match": r"inline uint8_t HllUtil<A>::getValue\(uint32_t coupon\)", "sig": "static inline uint8_t getValue(uint32_t coupon)"}
+HELPERS = [pair, getLow26, getValue]
+HURULE = (r"HllUtil<A>::", "", "any")
+
 find = {
     "name": "find", "file": F,
     "match": r"static int32_t find\(const uint32_t\* array, uint8_t lgArrInts, uint32_t coupon\)",
     "sig": "int32_t coupon_set_find(const uint32_t* array, uint8_t lgArrInts, uint32_t coupon)",
-    "throw_rv": "0", "nloops": 1,
+    "throw_rv": "0", "nloops": 1, "rules": [HURULE],
     "inserts": [(r"const uint32_t stride = [^;]*;", '__CPROVER_assert((stride & 1) == 1, "probe stride is odd (the probe orbit covers the whole power-of-two array)");', "after", 1)],
     "contract": r'''
 /* the coupon array of a set has 2^5 .. 2^(lgConfigK-3) slots; every size the arithmetic supports is covered */
@@ -43,7 +51,7 @@ list_update = {
     "sig": "void* list_couponUpdate(struct couponlist* self, uint32_t coupon)", "throw_rv": "0", "nloops": 1,
     "pre_rules": [(r"coupons_\.size\(\)", "coupons_size", 2), (r"return this;", "return self;", 2),
                   (r"promoteHeapListOrSetToHll\(\*this\)", "promote_to_hll(self)", 1), (r"promoteHeapListToSet\(\*this\)", "promote_to_set(self)", 1)],
-    "rules": [(r"(?<![\w>])coupons_size", "self->coupons_size", 2)],
+    "rules": [(r"(?<![\w>])coupons_size", "self->coupons_size", 2), HURULE],
     "inserts": [(r"self->coupons_\[i\] = coupon;", "g_w = i; g_written = 1;", "after", 1),
                 (r"return self;(?=\s*\}\s*\})", "g_w = i;", "before", 1)],
     "contract": r"""
@@ -83,21 +91,54 @@ __CPROVER_requires(lgArrInts >= 1 && lgArrInts <= 26 && verif_exc == 0 && __CPRO
 __CPROVER_assigns(verif_exc)
 __CPROVER_ensures((verif_exc == 0 && __CPROVER_return_value >= 0) ==> ((uint32_t)__CPROVER_return_value < ((uint32_t)1 << lgArrInts) && array[__CPROVER_return_value] == coupon && coupon != hll_constants_EMPTY))
 __CPROVER_ensures((verif_exc == 0 && __CPROVER_return_value < 0) ==> ((uint32_t)~__CPROVER_return_value < ((uint32_t)1 << lgArrInts) && array[~__CPROVER_return_value] == hll_constants_EMPTY));
-/* growHashSet: assumed (frame + the requested size is recorded); it re-inserts every coupon into a new array with the same probe */
-void growHashSet(struct couponlist* self, uint8_t tgtLgCoupArrSize) __CPROVER_assigns(verif_exc, g_grow_lg) __CPROVER_ensures(g_grow_lg == tgtLgCoupArrSize);
+/* ghost for growHashSet: an arbitrary source slot, its coupon, and the slot of the new array where that coupon went */
+size_t g_s; uint32_t g_c; size_t g_nw;
+#define SETINV(s) (POW2((s)->coupons_size) && (s)->lgConfigK_ >= 8 && (s)->lgConfigK_ <= 21 && (s)->coupons_size <= ((size_t)1 << ((s)->lgConfigK_ - 3)))
 """
 CH_MEMBERS = MEMBERS
+
+grow = {
+    "name": "growHashSet", "file": F, "members": CH_MEMBERS,
+    "match": r"void CouponHashSet<A>::growHashSet\(uint8_t tgtLgCoupArrSize\)", "sig": "void growHashSet(struct couponlist* self, uint8_t tgtLgCoupArrSize)", "nloops": 1,
+    "pre_rules": [(r"vector_int coupons_new\(tgtLen, 0, this->coupons_\.get_allocator\(\)\);", "uint32_t* coupons_new = (uint32_t*)calloc(tgtLen, sizeof(uint32_t)); __CPROVER_assume(coupons_new != NULL); g_grow_lg = tgtLgCoupArrSize;", 1),
+                  (r"this->coupons_\.size\(\)", "this->coupons_size", 1), (r"coupons_new\.data\(\)", "coupons_new", 1), (r"find<A>\(", "coupon_set_find(", 1),
+                  (r"this->coupons_ = std::move\(coupons_new\);", "this->coupons_ = coupons_new; this->coupons_size = tgtLen;", 1)],
+    "propagate": ["coupon_set_find"],
+    "inserts": [(r"coupons_new\[~idx\] = fetched;", "if (i == g_s) g_nw = (size_t)(uint32_t)~idx;", "after", 1)],
+    "contract": r"""
+__CPROVER_requires(__CPROVER_rw_ok(self, sizeof(*self)) && POW2(self->coupons_size) && __CPROVER_rw_ok(self->coupons_, self->coupons_size * sizeof(uint32_t)) && tgtLgCoupArrSize >= 1 && tgtLgCoupArrSize <= 26)
+__CPROVER_requires(verif_exc == 0 && g_s < self->coupons_size && g_c == self->coupons_[g_s])
+__CPROVER_assigns(verif_exc, g_grow_lg, g_nw, self->coupons_, self->coupons_size)
+/* the new array has the requested size and an arbitrary coupon of the old array is in it (none lost); the requested size is recorded */
+__CPROVER_ensures(g_grow_lg == tgtLgCoupArrSize)
+__CPROVER_ensures(verif_exc == 0 ==> (self->coupons_size == ((size_t)1 << tgtLgCoupArrSize) && __CPROVER_is_fresh(self->coupons_, self->coupons_size * sizeof(uint32_t))
+    && (g_c != hll_constants_EMPTY ==> (g_nw < self->coupons_size && self->coupons_[g_nw] == g_c))))
+/* refused: the old array is still in place */
+__CPROVER_ensures(verif_exc != 0 ==> (self->coupons_ == __CPROVER_old(self->coupons_) && self->coupons_size == __CPROVER_old(self->coupons_size)))
+""",
+    "loops": {1: r"""
+__CPROVER_assigns(i, verif_exc, g_nw, __CPROVER_object_whole(coupons_new))
+__CPROVER_loop_invariant(i <= srcLen && verif_exc == 0 && srcLen == (uint32_t)self->coupons_size && self->coupons_[g_s] == g_c)
+__CPROVER_loop_invariant((g_s < i && g_c != hll_constants_EMPTY) ==> (g_nw < tgtLen && coupons_new[g_nw] == g_c))
+__CPROVER_decreases(srcLen - i)
+"""},
+}
 check_grow = {
     "name": "checkGrowOrPromote", "file": F, "members": CH_MEMBERS,
     "match": r"bool CouponHashSet<A>::checkGrowOrPromote\(\)", "sig": "bool checkGrowOrPromote(struct couponlist* self)", "throw_rv": "0", "nloops": 0,
     "pre_rules": [(r"this->coupons_\.size\(\)", "this->coupons_size", 2)],
     "methods": ["growHashSet"], "propagate": ["growHashSet"],
     "contract": r"""
-__CPROVER_requires(__CPROVER_rw_ok(self, sizeof(*self)) && POW2(self->coupons_size) && self->lgConfigK_ >= 4 && self->lgConfigK_ <= 21 && verif_exc == 0 && g_grow_lg == 0)
-__CPROVER_assigns(verif_exc, g_grow_lg)
+__CPROVER_requires(__CPROVER_rw_ok(self, sizeof(*self)) && SETINV(self) && __CPROVER_rw_ok(self->coupons_, self->coupons_size * sizeof(uint32_t)) && verif_exc == 0 && g_grow_lg == 0)
+__CPROVER_requires(g_s < self->coupons_size && g_c == self->coupons_[g_s])
+__CPROVER_assigns(verif_exc, g_grow_lg, g_nw, self->coupons_, self->coupons_size)
 /* above the 3/4 load factor: promote when the array has its maximum size 2^(lgConfigK-3), otherwise ask for twice the size; at or below it: nothing */
-__CPROVER_ensures(verif_exc == 0 ==> __CPROVER_return_value == ((size_t)(4 * self->couponCount_) > 3 * self->coupons_size && __builtin_ctzll(self->coupons_size) == self->lgConfigK_ - 3))
-__CPROVER_ensures(verif_exc == 0 ==> g_grow_lg == (((size_t)(4 * self->couponCount_) > 3 * self->coupons_size && __builtin_ctzll(self->coupons_size) != self->lgConfigK_ - 3) ? __builtin_ctzll(self->coupons_size) + 1 : 0))
+__CPROVER_ensures(verif_exc == 0 ==> __CPROVER_return_value == ((size_t)(4 * self->couponCount_) > 3 * __CPROVER_old(self->coupons_size) && __builtin_ctzll(__CPROVER_old(self->coupons_size)) == self->lgConfigK_ - 3))
+__CPROVER_ensures(verif_exc == 0 ==> g_grow_lg == (((size_t)(4 * self->couponCount_) > 3 * __CPROVER_old(self->coupons_size) && __builtin_ctzll(__CPROVER_old(self->coupons_size)) != self->lgConfigK_ - 3) ? __builtin_ctzll(__CPROVER_old(self->coupons_size)) + 1 : 0))
+/* growth doubles the array, keeps the set invariant and loses no coupon; without growth the array is untouched */
+__CPROVER_ensures((verif_exc == 0 && g_grow_lg != 0) ==> (self->coupons_size == 2 * __CPROVER_old(self->coupons_size) && SETINV(self) && __CPROVER_is_fresh(self->coupons_, self->coupons_size * sizeof(uint32_t))
+    && (g_c != hll_constants_EMPTY ==> (g_nw < self->coupons_size && self->coupons_[g_nw] == g_c))))
+__CPROVER_ensures(g_grow_lg == 0 ==> (self->coupons_ == __CPROVER_old(self->coupons_) && self->coupons_size == __CPROVER_old(self->coupons_size)))
 """,
 }
 set_update = {
@@ -107,18 +148,21 @@ set_update = {
     "pre_rules": [(r"this->coupons_\.size\(\)", "this->coupons_size", 1), (r"this->coupons_\.data\(\)", "this->coupons_", 1), (r"find<A>\(", "coupon_set_find(", 1),
                   (r"return this;", "return self;", 2), (r"this->promoteHeapListOrSetToHll\(\*this\)", "promote_to_hll(self)", 1)],
     "methods": ["checkGrowOrPromote"], "propagate": ["coupon_set_find"],   # an exception out of checkGrowOrPromote (inside the if condition) leaves through the return statements that follow with the flag set
-    "inserts": [(r"\+\+self->couponCount_;", "g_written = 1; g_w = (size_t)(uint32_t)~index; g_present = self->coupons_[g_w] == coupon; g_slot_after = self->coupons_[g_i]; g_count_after = self->couponCount_; g_checked = 1;", "after", 1)],
+    "inserts": [(r"\+\+self->couponCount_;", "g_written = 1; g_w = (size_t)(uint32_t)~index; g_present = self->coupons_[g_w] == coupon; g_slot_after = self->coupons_[g_i]; g_count_after = self->couponCount_; g_checked = 1; g_c = self->coupons_[g_s];", "after", 1)],
     "contract": r"""
-__CPROVER_requires(__CPROVER_rw_ok(self, sizeof(*self)) && POW2(self->coupons_size) && __CPROVER_rw_ok(self->coupons_, self->coupons_size * sizeof(uint32_t)) && self->lgConfigK_ >= 4 && self->lgConfigK_ <= 21)
+__CPROVER_requires(__CPROVER_rw_ok(self, sizeof(*self)) && SETINV(self) && __CPROVER_rw_ok(self->coupons_, self->coupons_size * sizeof(uint32_t)))
+__CPROVER_requires(g_s < self->coupons_size)
 __CPROVER_requires(verif_exc == 0 && coupon != hll_constants_EMPTY && g_i < self->coupons_size && g_old == self->coupons_[g_i] && g_written == 0 && g_promoted == 0 && g_grow_lg == 0 && g_checked == 0)
-__CPROVER_assigns(verif_exc, self->couponCount_, g_w, g_written, g_promoted, g_grow_lg, g_present, g_slot_after, g_count_after, g_checked, __CPROVER_object_whole(self->coupons_))
+__CPROVER_assigns(verif_exc, self->couponCount_, g_w, g_written, g_promoted, g_grow_lg, g_present, g_slot_after, g_count_after, g_checked, g_nw, g_c, self->coupons_, self->coupons_size, __CPROVER_object_whole(self->coupons_))
 /* a duplicate changes nothing: same object, no write, no growth, no promotion */
 __CPROVER_ensures((verif_exc == 0 && !g_written) ==> (__CPROVER_return_value == self && self->couponCount_ == __CPROVER_old(self->couponCount_) && self->coupons_[g_i] == g_old && g_grow_lg == 0 && g_promoted == 0))
 /* a new coupon is written into an EMPTY slot, exactly one slot changes, the count grows by one (state before the grow / promote decision) */
-__CPROVER_ensures(g_written ==> (g_present && g_w < self->coupons_size && g_count_after == __CPROVER_old(self->couponCount_) + 1
+__CPROVER_ensures(g_written ==> (g_present && g_w < __CPROVER_old(self->coupons_size) && g_count_after == __CPROVER_old(self->couponCount_) + 1
     && (g_i == g_w ? (g_old == hll_constants_EMPTY && g_slot_after == coupon) : g_slot_after == g_old)))
 /* promotion to HLL exactly when the load check says so */
-__CPROVER_ensures((verif_exc == 0 && g_written) ==> (g_promoted == (((size_t)(4 * g_count_after) > 3 * self->coupons_size && __builtin_ctzll(self->coupons_size) == self->lgConfigK_ - 3) ? 2 : 0) && (g_promoted != 0 || __CPROVER_return_value == self)))
+__CPROVER_ensures((verif_exc == 0 && g_written) ==> (g_promoted == (((size_t)(4 * g_count_after) > 3 * __CPROVER_old(self->coupons_size) && __builtin_ctzll(__CPROVER_old(self->coupons_size)) == self->lgConfigK_ - 3) ? 2 : 0) && (g_promoted != 0 || __CPROVER_return_value == self)))
+/* growth after the write keeps the set invariant and loses no coupon (g_c: the coupon of an arbitrary slot after the write) */
+__CPROVER_ensures((verif_exc == 0 && g_written) ==> (SETINV(self) && (g_grow_lg != 0 ==> (self->coupons_size == 2 * __CPROVER_old(self->coupons_size) && (g_c != hll_constants_EMPTY ==> (g_nw < self->coupons_size && self->coupons_[g_nw] == g_c))))))
 """,
 }
 
@@ -129,7 +173,7 @@ UNIT = {
               "'the set of distinct coupons' in SET mode",
     "consts": crules.HLL_CONSTS,
     "prelude": "",
-    "parts": [find],
+    "parts": HELPERS + [find],
     "harness": r'''
 void h_find(void) {
   uint8_t lg = nondet_u8(); uint32_t coupon = nondet_u32();
@@ -151,7 +195,7 @@ UNIT2 = {
               "(to HLL below lgConfigK 8, otherwise to a hash set)",
     "consts": crules.HLL_CONSTS,
     "prelude": PRELUDE2,
-    "parts": [list_update],
+    "parts": HELPERS + [list_update],
     "harness": r"""
 void h_list_update(void) {
   struct couponlist* s = malloc(sizeof(*s)); __CPROVER_assume(s != NULL); size_t n = nondet_size();
@@ -167,12 +211,12 @@ void h_list_update(void) {
 }
 UNIT3 = {
     "id": "hll_coupon_set_update", "property": "C03",
-    "clause": "CouponHashSet::couponUpdate and checkGrowOrPromote for every array size 2..2^26 and content: a duplicate changes nothing; a new coupon goes into the EMPTY slot the probe "
+    "clause": "CouponHashSet::couponUpdate, checkGrowOrPromote and growHashSet (every coupon of the old array is in the new array of the requested size) for every array size 2..2^26 and content: a duplicate changes nothing; a new coupon goes into the EMPTY slot the probe "
               "returned, exactly that slot changes and the count grows by one; growth to twice the size is requested above the 3/4 load factor and promotion to HLL exactly when the array "
               "already has its maximum size 2^(lgConfigK-3)",
     "consts": crules.HLL_CONSTS,
     "prelude": PRELUDE3,
-    "parts": [check_grow, set_update],
+    "parts": [grow, check_grow, set_update],
     "harness": r"""
 static struct couponlist* mk_set(void) {
   struct couponlist* s = malloc(sizeof(*s)); __CPROVER_assume(s != NULL); size_t n = nondet_size();
@@ -180,11 +224,13 @@ static struct couponlist* mk_set(void) {
   s->coupons_ = malloc(sizeof(uint32_t) * n); __CPROVER_assume(s->coupons_ != NULL); s->coupons_size = n; return s;
 }
 void h_set_update(void) { struct couponlist* s = mk_set(); verif_exc = 0; void* r = set_couponUpdate(s, nondet_u32()); VERIF_CANARY_POINT; }
+void h_grow(void) { struct couponlist* s = mk_set(); verif_exc = 0; growHashSet(s, nondet_u8()); VERIF_CANARY_POINT; }
 void h_check_grow(void) { struct couponlist* s = mk_set(); verif_exc = 0; bool r = checkGrowOrPromote(s); VERIF_CANARY_POINT; }
 """,
-    "jobs": [{"name": "checkGrowOrPromote", "entry": "h_check_grow", "enforce": "checkGrowOrPromote", "replace": ["growHashSet", "count_trailing_zeros_in_u32"], "timeout": 300},
+    "jobs": [{"name": "growHashSet", "entry": "h_grow", "enforce": "growHashSet", "replace": ["coupon_set_find"], "loops": True, "expect_loop_steps": 1, "timeout": 600},
+             {"name": "checkGrowOrPromote", "entry": "h_check_grow", "enforce": "checkGrowOrPromote", "replace": ["growHashSet", "count_trailing_zeros_in_u32"], "timeout": 300},
              {"name": "set_couponUpdate", "entry": "h_set_update", "enforce": "set_couponUpdate", "replace": ["coupon_set_find", "checkGrowOrPromote", "promote_to_hll", "count_trailing_zeros_in_u32"], "timeout": 300}],
-    "assumptions": ["growHashSet enters by a frame contract recording the requested size (its re-insertion loop is not under contract); promoteHeapListOrSetToHll by a frame contract",
+    "assumptions": ["promoteHeapListOrSetToHll enters by a frame contract", "growHashSet: the vector of zeros is calloc, the release of the old storage by the vector move assignment is not modelled; 'nothing extra in the new array' and the coupon count of the new array are not stated (only 'no coupon of the old array is lost')",
                     "coupon_set_find and count_trailing_zeros_in_u32 enter by the contracts proved in units hll_coupon_set_find and hll_coupon"],
 }
 UNITS = [UNIT, UNIT2, UNIT3]
